@@ -275,6 +275,7 @@ func (w *world) planRound(np, start, stop, tip int, forced []string, forcedD []i
 				seen[f] = true
 				w.t.Line("vf %d %d %s => -", h, f, w.verifyRow(f, w.chain[h]))
 				w.t.Line("gt %d %d %s => -", h, f, w.gtRow(f, w.chain[h]))
+				w.t.Line("vb %d %d %s", h, f, w.vbRow(f, w.chain[h]))
 			}
 		}
 		if r.Intn(12) == 0 {
